@@ -8,7 +8,8 @@ ID = "C18"
 LEVEL = "exploration"
 META = b".^$*+?{}[]\\|()-\n\x00/ #&~"
 RULE = ("generated FLAT declarations over Int, Bits and Data (constant/field/expression/callable size, bytes marker kept or not, regex "
-        "marker kept) x a target value tree whose bytes are biased to regex metacharacters (.^$*+?{}[]\\|()- newline NUL) x a random "
+        "marker kept; one case in four is the stratum  neighbour . Data(each regex delimiter of the pool, kept) . Int(1)  with the delimiter "
+        "matched at the very start of its field after a word / context byte) x a target value tree whose bytes are biased to regex metacharacters (.^$*+?{}[]\\|()- newline NUL) x a random "
         "subset of fields fixed to the target's values, the rest Any() (Data also Any(startswith/contains/endswith) cut from the "
         "target's value) x a corpus (the target's encoding, encodings of re-drawn trees that keep the fixed fields, one fixed field "
         "changed, truncations, random strings); oracle: as_regular_expression() returns; filter(p, corpus, True) yields the same "
